@@ -605,7 +605,8 @@ impl Value {
                                     .unwrap_or(Value::Null)
                                     .into(),
                                 (Value::String(str), Value::Int(idx)) => {
-                                    match str.get(idx as usize..(idx + 1) as usize) {
+                                    let start = idx as usize;
+                                    match start.checked_add(1).and_then(|end| str.get(start..end)) {
                                         None => Ok(Value::Null),
                                         Some(str) => Ok(Value::String(str.to_string().into())),
                                     }
